@@ -19,13 +19,13 @@ Definition pr_rs (o : @robs ascii) : prd :=
   match o with RPos p => PPos p | RErr => PRErr | RData d => PStr (sh d) end.
 
 Inductive pobs :=
-| PUnit | PBytes (s : string) | PBool (b : bool) | PList (l : list string) | PSize (n : Z) | PSizeDir | PErr (e : errk)
+| PUnit | PBytes (s : string) | PBool (b : bool) | PList (l : list string) | PSize (n : Z) | PErr (e : errk)
 | POpened (os : list prd) (final : Z).
 
 Definition pr (o : obs) : pobs :=
   match o with
   | OUnit => PUnit | OBytes v => PBytes (sh v) | OBool b => PBool b | OList l => PList (map sh l)
-  | OSize n => PSize n | OSizeDir => PSizeDir | OErr e => PErr e
+  | OSize n => PSize n | OErr e => PErr e
   | OOpened os final => POpened (map pr_rs os) final
   end.
 
